@@ -110,7 +110,7 @@ func TestVerifReplay(t *testing.T) {
 		}
 	case "storeconc":
 		res.Tried = 1
-		report(map[string]string{"scenario": "Merge(64 keys) racing Set on an empty store; Clear racing GetAll; 20000 rounds"}, runStoreConcurrent())
+		report(map[string]string{"scenario": "lock probe (every operation against a held reader / writer section); Merge(64 keys) racing Set on an empty store; Clear racing GetAll; 20000 rounds"}, runStoreConcurrent())
 	case "value":
 		for i := range valueCatalogue() {
 			res.Tried++
@@ -202,6 +202,9 @@ type lcScenario struct {
 	InFlow     bool   `json:"in_flow"`
 	NilPtr     bool   `json:"typed_nil_pointer_payload"` // prep and exec return a typed nil pointer
 	ErrPayload bool   `json:"error_typed_payload"`       // the prep value is itself a value of an error type (with a nil error return)
+	CauseCtx   bool   `json:"cancel_with_cause"`         // the context is a WithCancelCause context cancelled with a custom cause
+	OnDone     bool   `json:"cancel_when_wait_begins"`   // the context is cancelled at the moment Run asks for ctx.Done(), i.e. when the retry wait begins
+	ErrBoth    bool   `json:"failing_exec_returns_error_result_and_error"` // func kind, result-style exec: a failing attempt returns NewErrorResult(e), e
 }
 
 type lcEvent struct {
@@ -340,6 +343,11 @@ func lifecycleScenarios() []lcScenario {
 								sc := base
 								sc.Styles = st
 								out = append(out, sc)
+								if kind == "func" && st&2 == 0 && ef[0] {
+									sc5 := sc
+									sc5.ErrBoth = true
+									out = append(out, sc5)
+								}
 								if kind == "func" && st&2 == 0 && !ef[len(ef)-1] {
 									sc2 := sc
 									sc2.ErrResult = true
@@ -384,6 +392,16 @@ func lifecycleScenarios() []lcScenario {
 			w2 := w
 			w2.CancelAt = 1
 			extra = append(extra, w2)
+			w3 := w2
+			w3.CauseCtx = true
+			extra = append(extra, w3)
+			if sc.ExecFail[0] && sc.PostAction == "" && !sc.PostErr && !sc.FbErr {
+				for _, cause := range []bool{false, true} {
+					w4 := w
+					w4.WaitMs, w4.OnDone, w4.CauseCtx = 400, true, cause
+					extra = append(extra, w4)
+				}
+			}
 		}
 		f := sc
 		f.InFlow = true
@@ -406,9 +424,18 @@ func runLifecycle(sc lcScenario, prop string) string {
 		ctx, cancel := context.WithCancel(context.Background())
 		defer cancel()
 		r.cancel = cancel
+		if sc.CauseCtx {
+			cctx, ccancel := context.WithCancelCause(context.Background())
+			defer ccancel(nil)
+			ctx, r.cancel = cctx, func() { ccancel(errors.New("operator requested shutdown")) }
+		}
 		if sc.CancelAt == -2 {
 			cancel()
 		}
+		if sc.OnDone {
+			ctx = &lcHookCtx{Context: ctx, onDone: r.cancel}
+		}
+		started := time.Now()
 		store := NewSharedStore()
 		var node Node
 		opts := []NodeOption{WithMaxRetries(sc.N), WithWait(time.Duration(sc.WaitMs) * time.Millisecond)}
@@ -450,6 +477,9 @@ func runLifecycle(sc lcScenario, prop string) string {
 					}
 					v, e := r.doExec(p.Value())
 					if e != nil {
+						if sc.ErrBoth {
+							return NewErrorResult(e), e
+						}
 						return Result{}, e
 					}
 					if sc.ErrResult {
@@ -484,8 +514,35 @@ func runLifecycle(sc lcScenario, prop string) string {
 		} else {
 			act, err = Run(ctx, node, store)
 		}
+		if sc.OnDone && !wants(prop, "C20", "C05") {
+			return "" // the general oracle does not model a cancellation that arrives when the wait begins
+		}
+		if sc.OnDone {
+			if el := time.Since(started); el >= time.Duration(sc.WaitMs)*time.Millisecond {
+				return fmt.Sprintf("C20: cancelled when the %dms retry wait began, Run returned only after %v (slept out the wait)", sc.WaitMs, el)
+			}
+			if err == nil || !errors.Is(err, ctx.Err()) {
+				return fmt.Sprintf("C20: cancelled when the retry wait began; Run returned (%q, %v), which does not match ctx.Err() = %v", act, err, ctx.Err())
+			}
+			if n := len(r.execVals); n != 1 {
+				return fmt.Sprintf("C20: cancelled when the first retry wait began, yet %d exec attempts were made", n)
+			}
+			return ""
+		}
 		return lifecycleOracle(sc, r, store, retryable, act, err, ctx, prop)
 	})
+}
+
+// lcHookCtx cancels the context at the moment the code under test asks for Done().
+type lcHookCtx struct {
+	context.Context
+	onDone func()
+	once   sync.Once
+}
+
+func (h *lcHookCtx) Done() <-chan struct{} {
+	h.once.Do(h.onDone)
+	return h.Context.Done()
 }
 
 func lifecycleOracle(sc lcScenario, r *lcRec, store *SharedStore, retryable bool, act Action, err error, ctx context.Context, prop string) string {
@@ -513,6 +570,23 @@ func lifecycleOracle(sc lcScenario, r *lcRec, store *SharedStore, retryable bool
 	cancelled := sc.CancelAt == -2 || cancelledAfter >= 0
 	hasFallback := sc.Fallback || sc.Kind == "struct" || sc.Kind == "func" // BaseNode / CustomNode provide a default fallback returning the error
 	userFallback := sc.Fallback
+	// ---- C20: cancellation that arrives before / during the retry wait ends the run with the context's error
+	if wants(prop, "C20") && sc.WaitMs > 0 && cancelledAfter >= 0 && !sc.InFlow && r.events[cancelledAfter].name == "exec" {
+		k := 0
+		for i := 0; i < cancelledAfter; i++ {
+			if r.events[i].name == "exec" {
+				k++
+			}
+		}
+		if k < len(r.execErrs) && r.execErrs[k] != nil && k < N-1 {
+			if err == nil || !errors.Is(err, ctx.Err()) {
+				return fmt.Sprintf("C20: cancelled while attempt %d was failing, so the retry wait was interrupted; Run returned (%q, %v), which does not match ctx.Err() = %v", k, act, err, ctx.Err())
+			}
+			if len(execs) > k+1 {
+				return fmt.Sprintf("C20: a further attempt started although the context was cancelled before the wait")
+			}
+		}
+	}
 	// ---- C05
 	if wants(prop, "C05") {
 		if sc.CancelAt == -2 {
@@ -737,6 +811,7 @@ type flScenario struct {
 	FailAt   int        `json:"fail_at"`  // visit index whose exec fails (-1 none)
 	CancelAt int        `json:"cancel_at"`
 	Runs     int        `json:"runs"`
+	Special  string     `json:"special,omitempty"` // rewire-inside-node | nested-empty-batch
 }
 
 type flNode struct {
@@ -814,6 +889,8 @@ func flowScenarios() []flScenario {
 		out = append(out, b)
 	}
 	out = append(out, flScenario{Nested: -9, FailAt: -1, CancelAt: -1, Runs: 1})
+	out = append(out, flScenario{Special: "rewire-inside-node", Nested: -1, FailAt: -1, CancelAt: -1, Runs: 1}, flScenario{Special: "nested-empty-batch", Nested: -1, FailAt: -1, CancelAt: -1, Runs: 1},
+		flScenario{Special: "cancel-then-batch", Nested: -1, FailAt: -1, CancelAt: -1, Runs: 1})
 	for k := 0; k < 4; k++ {
 		b := base
 		b.FailAt = k
@@ -855,9 +932,100 @@ func nilEndedInnerFlow() string {
 	})
 }
 
+// rewireInsideNode: node a has no connection when it starts; its post connects (a, "go") to b and returns "go".
+func rewireInsideNode() string {
+	return guard(func() string {
+		var log []string
+		var fl *Flow
+		var a, b Node
+		b = NewNode().WithExecFuncAny(func(ctx context.Context, p any) (any, error) { log = append(log, "b"); return nil, nil })
+		a = NewNode().WithExecFuncAny(func(ctx context.Context, p any) (any, error) { log = append(log, "a"); return nil, nil }).
+			WithPostFuncAny(func(ctx context.Context, s *SharedStore, p, e any) (Action, error) {
+				fl.Connect(a, "go", b)
+				return "go", nil
+			})
+		fl = NewFlow(a)
+		if err := fl.Run(context.Background(), NewSharedStore()); err != nil {
+			return "C03: " + err.Error()
+		}
+		if got := strings.Join(log, " "); got != "a b" {
+			return fmt.Sprintf("C03: node a finished with action \"go\" and (a, go) was then connected to b (connected from inside a's post), yet the flow visited %q instead of \"a b\"", got)
+		}
+		return ""
+	})
+}
+
+// nestedEmptyBatch: an inner flow whose last node is a batch with no items and a post that returns "";
+// the parent routes the inner flow on DefaultAction.
+func nestedEmptyBatch() string {
+	return guard(func() string {
+		run := func(nested bool) (string, error) {
+			var log []string
+			batch := NewBatchNode().
+				WithPrepFunc(func(c context.Context, s *SharedStore) ([]Result, error) { log = append(log, "batch"); return nil, nil }).
+				WithExecFunc(func(c context.Context, item Result) (Result, error) { return item, nil }).
+				WithPostFunc(func(c context.Context, s *SharedStore, items, results []Result) (Action, error) { return "", nil })
+			y := NewNode().WithExecFuncAny(func(ctx context.Context, p any) (any, error) { log = append(log, "Y"); return nil, nil })
+			var first Node = batch
+			if nested {
+				first = NewFlow(batch)
+			}
+			outer := NewFlow(first)
+			outer.Connect(first, DefaultAction, y)
+			err := outer.Run(context.Background(), NewSharedStore())
+			return strings.Join(log, " "), err
+		}
+		flat, err1 := run(false)
+		nest, err2 := run(true)
+		if err1 != nil || err2 != nil {
+			return fmt.Sprintf("C10: %v / %v", err1, err2)
+		}
+		if flat != nest || nest != "batch Y" {
+			return fmt.Sprintf("C10/C18: a batch with no items whose post returns \"\", routed on the default action: the flattened machine visits %q, the nested arrangement %q (both should visit \"batch Y\")", flat, nest)
+		}
+		return ""
+	})
+}
+
+// cancelThenBatch: the context is cancelled inside the post of an ordinary node whose successor is a batch node.
+func cancelThenBatch() string {
+	return guard(func() string {
+		ctx, cancel := context.WithCancel(context.Background())
+		defer cancel()
+		var log []string
+		a := NewNode().WithExecFuncAny(func(ctx context.Context, p any) (any, error) { log = append(log, "a"); return nil, nil }).
+			WithPostFuncAny(func(ctx context.Context, s *SharedStore, p, e any) (Action, error) { cancel(); return DefaultAction, nil })
+		batch := NewBatchNode().
+			WithPrepFunc(func(c context.Context, s *SharedStore) ([]Result, error) { log = append(log, "batch.prep"); return nil, nil }).
+			WithExecFunc(func(c context.Context, item Result) (Result, error) { log = append(log, "batch.exec"); return item, nil }).
+			WithPostFunc(func(c context.Context, s *SharedStore, items, results []Result) (Action, error) {
+				log = append(log, "batch.post")
+				return DefaultAction, nil
+			})
+		fl := NewFlow(a)
+		fl.Connect(a, DefaultAction, batch)
+		err := fl.Run(ctx, NewSharedStore())
+		if got := strings.Join(log, " "); got != "a" {
+			return fmt.Sprintf("C05: the context was cancelled inside node a's post, yet the next node of the flow (a batch node) was started: callbacks %q", got)
+		}
+		if err == nil || !errors.Is(err, ctx.Err()) {
+			return fmt.Sprintf("C05: flow cut short by cancellation returned %v", err)
+		}
+		return ""
+	})
+}
+
 func runFlowScenario(sc flScenario, prop string) string {
 	if sc.Nested == -9 {
 		return nilEndedInnerFlow()
+	}
+	switch sc.Special {
+	case "rewire-inside-node":
+		return rewireInsideNode()
+	case "nested-empty-batch":
+		return nestedEmptyBatch()
+	case "cancel-then-batch":
+		return cancelThenBatch()
 	}
 	return guard(func() string {
 		ctx, cancel := context.WithCancel(context.Background())
@@ -973,6 +1141,8 @@ type btScenario struct {
 	ErrResult   int    `json:"error_result_item"` // item whose exec returns an error Result with nil error (-1 none)
 	FbFails     bool   `json:"fallback_fails"`
 	CancelPrep  bool   `json:"cancel_inside_prep"`
+	CtxWrapErr  bool   `json:"item_errors_wrap_deadline_exceeded"` // the items' own errors wrap context.DeadlineExceeded (the batch context stays alive)
+	NilItem1    int    `json:"nil_valued_success_item_plus_1"`     // 1-based index of an item whose exec succeeds with a nil value (0 none)
 	WaitMs      int    `json:"wait_ms"`
 	SlowMs      int    `json:"slow_failing_attempt_ms"`
 	Gate        string `json:"gate"` // "" | max-first | min-first: every exec attempt parks until a controller releases it; the controller releases the in-flight attempt with the highest / lowest item index once no new attempt arrives
@@ -1022,6 +1192,19 @@ func batchScenarios() []btScenario {
 	for _, c := range []int{0, 2} {
 		for _, stop := range []bool{false, true} {
 			out = append(out, btScenario{Items: 3, Concurrency: c, Stop: stop, Retries: 1, Fail: []int{0, 0, 0}, Payload: "results", CancelIn: -1, ErrResult: -1, CancelPrep: true})
+		}
+	}
+	for _, c := range []int{0, 2} {
+		if c == 0 {
+			for _, c1 := range []int{0, 1} {
+				out = append(out, btScenario{Items: 3, Concurrency: c1, Stop: true, Retries: 1, Fail: []int{9, 0, 0}, Payload: "results", CancelIn: -1, ErrResult: -1, CtxWrapErr: true},
+					btScenario{Items: 4, Concurrency: c1, Stop: true, Retries: 2, Fail: []int{0, 9, 0, 0}, Payload: "results", CancelIn: -1, ErrResult: -1, CtxWrapErr: true})
+			}
+		}
+		out = append(out, btScenario{Items: 3, Concurrency: c, Retries: 1, Fail: []int{9, 0, 0}, Payload: "results", CancelIn: -1, ErrResult: -1, CtxWrapErr: true},
+			btScenario{Items: 3, Concurrency: c, Retries: 2, Fail: []int{0, 9, 0}, Fallback: true, FbFails: true, Payload: "results", CancelIn: -1, ErrResult: -1, CtxWrapErr: true})
+		for _, stop := range []bool{false, true} {
+			out = append(out, btScenario{Items: 3, Concurrency: c, Stop: stop, Retries: 1, Fail: []int{0, 9, 0}, Payload: "results", CancelIn: -1, ErrResult: -1, NilItem1: 1, Gate: map[bool]string{true: "min-first"}[c > 0]})
 		}
 	}
 	out = append(out, btScenario{Items: 0, Payload: "nil", CancelIn: -1, ErrResult: -1, Retries: 1}, btScenario{Items: 1, Payload: "single", CancelIn: -1, ErrResult: -1, Retries: 1, Fail: []int{0}},
@@ -1139,7 +1322,13 @@ func runBatchScenario(sc btScenario, prop string) string {
 				if sc.SlowMs > 0 {
 					time.Sleep(time.Duration(sc.SlowMs) * time.Millisecond)
 				}
+				if sc.CtxWrapErr {
+					return Result{}, &btWrapErr{fmt.Sprintf("item-%d-attempt-%d", i, k), context.DeadlineExceeded}
+				}
 				return Result{}, fmt.Errorf("item-%d-attempt-%d", i, k)
+			}
+			if sc.NilItem1 == i+1 {
+				return NewResult(nil), nil
 			}
 			if sc.ErrResult == i {
 				return NewErrorResult(errRes), nil
@@ -1209,7 +1398,7 @@ func runBatchScenario(sc btScenario, prop string) string {
 			if wants(prop, "C06", "C07") && !cancelled {
 				switch {
 				case itemFails && sc.Fallback && sc.FbFails:
-					if !r.IsError() || r.Error() != fbErr {
+					if !r.IsError() || (r.Error() != fbErr && r.Error().Error() != fbErr.Error()) {
 						return fmt.Sprintf("C07: slot %d should hold the fallback's outcome (its error %q), holds value %v err %v", i, fbErr, r.Value(), r.Error())
 					}
 				case itemFails && sc.Fallback:
@@ -1220,6 +1409,10 @@ func runBatchScenario(sc btScenario, prop string) string {
 					want := fmt.Sprintf("item-%d-attempt-%d", i, sc.Retries)
 					if !r.IsError() || r.Error().Error() != want {
 						return fmt.Sprintf("C07: slot %d should hold the last attempt's error %q, holds value %v err %v", i, want, r.Value(), r.Error())
+					}
+				case sc.NilItem1 == i+1:
+					if r.IsError() || r.Value() != nil {
+						return fmt.Sprintf("C06/C17: item %d was executed and succeeded with a nil value; its slot holds value %v err %v", i, r.Value(), r.Error())
 					}
 				case sc.ErrResult == i:
 					if !r.IsError() || r.Error() != errRes {
@@ -1289,6 +1482,14 @@ func runBatchScenario(sc btScenario, prop string) string {
 		return ""
 	})
 }
+
+type btWrapErr struct {
+	msg   string
+	inner error
+}
+
+func (e *btWrapErr) Error() string { return e.msg }
+func (e *btWrapErr) Unwrap() error { return e.inner }
 
 // ------------------------------------------------------------------ store as a map (C14)
 
@@ -1428,7 +1629,81 @@ func runStoreOps(seed int) string {
 
 // ------------------------------------------------------------------ store under concurrency (C13), stress only
 
+// storeLockProbe: a deterministic probe of the lock discipline (the harness lives in the package and can hold
+// the store's own lock): no mutation may complete while a reader section is open, and no operation at all
+// while a writer section is open.
+func storeLockProbe() string {
+	type op struct {
+		name string
+		run  func(st *SharedStore)
+		mut  bool
+	}
+	ops := []op{
+		{"Set of an existing key", func(st *SharedStore) { st.Set("a", 2) }, true},
+		{"Set of a new key", func(st *SharedStore) { st.Set("n", 2) }, true},
+		{"Delete", func(st *SharedStore) { st.Delete("a") }, true},
+		{"Merge", func(st *SharedStore) { st.Merge(map[string]any{"a": 3, "m": 4}) }, true},
+		{"Merge into an empty store", nil, true},
+		{"Clear", func(st *SharedStore) { st.Clear() }, true},
+		{"Get", func(st *SharedStore) { st.Get("a") }, false},
+		{"Has", func(st *SharedStore) { st.Has("a") }, false},
+		{"Len", func(st *SharedStore) { st.Len() }, false},
+		{"Keys", func(st *SharedStore) { st.Keys() }, false},
+		{"GetAll", func(st *SharedStore) { st.GetAll() }, false},
+		{"GetInt", func(st *SharedStore) { st.GetInt("a") }, false},
+		{"GetString", func(st *SharedStore) { st.GetString("a") }, false},
+	}
+	for _, o := range ops {
+		for _, writerHeld := range []bool{false, true} {
+			if !o.mut && !writerHeld {
+				continue // readers may share a reader section
+			}
+			st := NewSharedStore()
+			run := o.run
+			if run == nil {
+				run = func(st *SharedStore) { st.Merge(map[string]any{"a": 3, "m": 4}) }
+			} else {
+				st.Set("a", 1)
+			}
+			if writerHeld {
+				st.mu.Lock()
+			} else {
+				st.mu.RLock()
+			}
+			done := make(chan struct{})
+			go func() { run(st); close(done) }()
+			completed := false
+			select {
+			case <-done:
+				completed = true
+			case <-time.After(40 * time.Millisecond):
+			}
+			if writerHeld {
+				st.mu.Unlock()
+			} else {
+				st.mu.RUnlock()
+			}
+			select {
+			case <-done:
+			case <-time.After(3 * time.Second):
+				return fmt.Sprintf("C13: %s did not complete after the lock was released", o.name)
+			}
+			if completed {
+				held := "a reader"
+				if writerHeld {
+					held = "a writer"
+				}
+				return fmt.Sprintf("C13: %s completed while %s was inside its critical section on the same store", o.name, held)
+			}
+		}
+	}
+	return ""
+}
+
 func runStoreConcurrent() string {
+	if m := guard(storeLockProbe); m != "" {
+		return m
+	}
 	return guard(func() string {
 		batch := map[string]any{}
 		for i := 0; i < 64; i++ {
@@ -1642,6 +1917,8 @@ func bindCases() []bindCase {
 		{"unmarshalable func", func() {}, func() any { var a any; return &a }},
 		{"pointer value same type", &vrUser{9, "p"}, func() any { var p *vrUser; return &p }},
 		{"nil value", nil, func() any { return &vrUser{} }},
+		{"partial decode into a pre-populated struct", map[string]any{"id": "not-a-number", "name": "partial"}, func() any { return &vrUser{ID: 42, Name: "pre"} }},
+		{"partial decode into a slice", []any{1, "x", 3}, func() any { return &[]int{7, 8, 9, 10} }},
 	}
 }
 
@@ -1679,6 +1956,9 @@ func runBind(i int) string {
 		}
 		if gotErr == nil && !reflect.DeepEqual(d1, d2) {
 			return fmt.Sprintf("C16: %s: Result.Bind produced %#v, the JSON round trip %#v", c.desc, d2, d1)
+		}
+		if rv := reflect.ValueOf(d1); gotErr != nil && wantErr != nil && c.val != nil && rv.Kind() == reflect.Ptr && !rv.IsNil() && !reflect.DeepEqual(d1, d2) {
+			return fmt.Sprintf("C16: %s: after the failed binding the destination holds %#v, the failed JSON round trip leaves %#v", c.desc, reflect.ValueOf(d2).Elem().Interface(), rv.Elem().Interface())
 		}
 		if gotErr == nil && stErr == nil && !reflect.DeepEqual(d2, d3) {
 			return fmt.Sprintf("C16: %s: store Bind produced %#v, Result.Bind %#v", c.desc, d3, d2)
@@ -1777,22 +2057,126 @@ type plScenario struct {
 	Workers int  `json:"workers"`
 	Tasks   int  `json:"tasks"`
 	Gated   bool `json:"submit_next_after_previous_started"`
+	Special string `json:"special,omitempty"` // two-waiters | dependent-tasks
 }
 
 func poolScenarios() []plScenario {
 	var out []plScenario
 	for _, w := range []int{-1, 0, 1, 2, 4} {
 		for _, n := range []int{0, 1, 5, 40} {
-			out = append(out, plScenario{w, n, false})
+			out = append(out, plScenario{w, n, false, ""})
 		}
 	}
 	for _, w := range []int{2, 3, 8} {
-		out = append(out, plScenario{w, w, true})
+		out = append(out, plScenario{w, w, true, ""})
 	}
+	out = append(out, plScenario{2, 2, false, "two-waiters"}, plScenario{2, 6, false, "dependent-tasks"}, plScenario{3, 9, false, "dependent-tasks"})
 	return out
 }
 
+// poolTwoWaiters: two clients each submit a blocking task and then call Wait concurrently; neither Wait may return
+// while a previously submitted task is still running.
+func poolTwoWaiters() string {
+	return guard(func() string {
+		p := NewWorkerPool(2)
+		gate := make(chan struct{})
+		running := make(chan struct{}, 2)
+		var finished int32
+		for i := 0; i < 2; i++ {
+			p.Submit(func() { running <- struct{}{}; <-gate; atomic.AddInt32(&finished, 1) })
+		}
+		for i := 0; i < 2; i++ {
+			select {
+			case <-running:
+			case <-time.After(3 * time.Second):
+				return "C08: two blocking tasks did not both start on a pool of two workers"
+			}
+		}
+		early := make(chan int32, 2)
+		for i := 0; i < 2; i++ {
+			go func() { p.Wait(); early <- atomic.LoadInt32(&finished) }()
+		}
+		select {
+		case n := <-early:
+			close(gate)
+			return fmt.Sprintf("C12: with two concurrent waiters, a Wait returned while %d of the 2 previously submitted tasks were still running", 2-n)
+		case <-time.After(300 * time.Millisecond):
+		}
+		close(gate)
+		for i := 0; i < 2; i++ {
+			select {
+			case n := <-early:
+				if n != 2 {
+					return fmt.Sprintf("C12: Wait returned after only %d of 2 tasks had finished", n)
+				}
+			case <-time.After(3 * time.Second):
+				return "C12: Wait did not return after all tasks finished"
+			}
+		}
+		p.Close()
+		return ""
+	})
+}
+
+// poolDependentTasks: all c workers are busy; c mutually dependent tasks (each waits until all c are in flight)
+// and c fillers are queued; one worker is freed, then the rest. The c dependent tasks must get in flight together.
+func poolDependentTasks(c int) string {
+	return guard(func() string {
+		p := NewWorkerPool(c)
+		gates := make([]chan struct{}, c)
+		started := make(chan int, c)
+		for i := range gates {
+			gates[i] = make(chan struct{})
+			i := i
+			p.Submit(func() { started <- i; <-gates[i] })
+		}
+		for i := 0; i < c; i++ {
+			select {
+			case <-started:
+			case <-time.After(3 * time.Second):
+				return fmt.Sprintf("C08: only %d of %d blocking tasks started with %d workers", i, c, c)
+			}
+		}
+		var arrived int32
+		release := make(chan struct{})
+		allIn := make(chan struct{})
+		for i := 0; i < c; i++ {
+			p.Submit(func() {
+				if atomic.AddInt32(&arrived, 1) == int32(c) {
+					close(allIn)
+				}
+				<-release
+			})
+		}
+		for i := 0; i < c; i++ {
+			p.Submit(func() {})
+		}
+		close(gates[0])
+		time.Sleep(30 * time.Millisecond)
+		for i := 1; i < c; i++ {
+			close(gates[i])
+		}
+		select {
+		case <-allIn:
+		case <-time.After(1500 * time.Millisecond):
+			n := atomic.LoadInt32(&arrived)
+			close(release)
+			return fmt.Sprintf("C08: with %d workers only %d of %d mutually dependent tasks were ever in flight together (the rest stayed out of reach of the idle workers)", c, n, c)
+		}
+		close(release)
+		p.Wait()
+		p.Close()
+		return ""
+	})
+}
+
 func runPool(sc plScenario) string {
+	switch sc.Special {
+	case "two-waiters":
+		return poolTwoWaiters()
+	case "dependent-tasks":
+		return poolDependentTasks(sc.Workers)
+	}
 	return guard(func() string {
 		p := NewWorkerPool(sc.Workers)
 		c := sc.Workers
